@@ -216,7 +216,7 @@ impl Check for C01 {
     }
 
     fn rule(&self) -> String {
-        "Episodes of 1-4 datagrams; each datagram is 1-4 stacked packets from the real builders or the foreign RFC encoder, then 0-4 composed channel faults (truncate, extend, coalesce, bit flip, byte set, header field, padding trailer, inner length byte, reframe, misroute) drawn from the episode's swarm configuration; the receiver then runs Compound/Packet/8 typed parsers/ReportBlock/5 FCI parsers (direct, on seeded sub-slices, and via parse_fci) and a tape-driven read-out history over every public accessor, conversion and iterator; plus once per run a chain of 2^20 header-only packets; plus, in the first 4096 episodes, length-field sweep frames (single packets of every type and compounds of up to 256 KiB) for the ~70 (quick) / ~800 (thorough) field values arithmetic is most likely to get wrong. evaluations = deliveries. A delivery is non-trivial when at least one fault fired (changed the bytes) and at least one entry point accepted the damaged bytes (the receiver went past validation into accessor code); distinct = distinct (set of accepting entry points, ordered fault-kind sequence, length in words, verdict).".into()
+        "Episodes of 1-4 datagrams; each datagram is 1-4 stacked packets from the real builders or the foreign RFC encoder, then 0-4 composed channel faults (truncate, extend, coalesce, bit flip, byte set, header field, padding trailer, inner length byte, reframe, misroute) drawn from the episode's swarm configuration; the receiver then runs Compound/Packet/8 typed parsers/ReportBlock/5 FCI parsers (direct, on seeded sub-slices, and via parse_fci) and a tape-driven read-out history over every public accessor, conversion and iterator; plus once per run a chain of 2^20 header-only packets; plus, in the first 4096 episodes, length-field sweep frames (single packets of every type and compounds of up to 256 KiB) for the ~70 (quick) / ~800 (thorough) field values arithmetic is most likely to get wrong. evaluations = deliveries. A delivery is non-trivial when at least one fault fired (changed the bytes) and at least one entry point accepted the damaged bytes (the receiver went past validation into accessor code); distinct = distinct (set of accepting entry points, ordered fault-kind sequence, length in words, verdict). In a quarter of the deliveries bystander traffic (fixed well-formed packets of every kind) is parsed and read on the same thread between the parse of a view and its read-out and between iterator steps.".into()
     }
     fn assumptions(&self) -> Vec<String> {
         vec![
